@@ -113,6 +113,8 @@ pub enum Strategy {
     HoldM,
     /// one member of each group is held back until every other member is done and reported
     Straggler,
+    /// answer monorail at once; the releasable helpers take one step each, in turn
+    RoundRobin,
 }
 
 #[derive(Serialize, Deserialize, Clone, Debug, PartialEq)]
@@ -177,6 +179,9 @@ pub struct RunScript {
     /// faults applied to the `log tail` listener of the world while this run proceeds
     #[serde(default)]
     pub lfaults: Vec<LFault>,
+    /// FSFAULT_WRITE_STALL coordinate: "<class substring>:<k>:<ms>" (a stalled disk under the output directory)
+    #[serde(default)]
+    pub fs_write_stall: Option<String>,
 }
 impl RunScript {
     pub fn simple(opts: RunOpts) -> RunScript {
@@ -194,6 +199,7 @@ impl RunScript {
             fs_crash: None,
             fs_log: None,
             lfaults: vec![],
+            fs_write_stall: None,
         }
     }
     pub fn behav_for(&self, command: &str, target: &str) -> Option<&Behav> {
@@ -307,6 +313,11 @@ pub fn drive_run_l(w: &mut World, actor: &str, sc: &RunScript, hang: Duration, l
         env.push(("LD_PRELOAD".into(), crate::world::shim_path().to_string_lossy().into_owned()));
         env.push(("FSFAULT_RANDSEED".into(), s.to_string()));
     }
+    if let Some(st) = &sc.fs_write_stall {
+        env.push(("LD_PRELOAD".into(), crate::world::shim_path().to_string_lossy().into_owned()));
+        env.push(("FSFAULT_ROOT".into(), w.out_dir().to_string_lossy().into_owned()));
+        env.push(("FSFAULT_WRITE_STALL".into(), st.clone()));
+    }
     if sc.fs_crash.is_some() || sc.fs_log.is_some() {
         env.push(("LD_PRELOAD".into(), crate::world::shim_path().to_string_lossy().into_owned()));
         env.push(("FSFAULT_ROOT".into(), w.out_dir().to_string_lossy().into_owned()));
@@ -344,6 +355,7 @@ pub fn drive_run_l(w: &mut World, actor: &str, sc: &RunScript, hang: Duration, l
     // a child being kept alive for real time: (helper, deadline); meanwhile monorail is answered at once
     let mut hold: Option<(usize, std::time::Instant)> = None;
     let mut after_hold: Option<usize> = None;
+    let mut rr_last: Option<usize> = None;
 
     macro_rules! hang {
         ($($a:tt)*) => {{
@@ -467,6 +479,17 @@ pub fn drive_run_l(w: &mut World, actor: &str, sc: &RunScript, hang: Duration, l
                     let p = sc.prio.iter().find(|(x, _)| x == t).map(|x| x.1).unwrap_or(0);
                     p * 100000 + h as i64
                 })
+            }
+            Strategy::RoundRobin => {
+                if opts.contains(&Opt::MGo) {
+                    Opt::MGo
+                } else if opts.contains(&Opt::MWait) {
+                    Opt::MWait
+                } else {
+                    let next = hs.iter().cloned().filter(|h| rr_last.map(|l| *h > l).unwrap_or(true)).min().unwrap_or_else(|| *hs.iter().min().unwrap());
+                    rr_last = Some(next);
+                    Opt::H(next)
+                }
             }
             Strategy::Uniform => opts[rng.below(opts.len())],
             Strategy::HoldM => {
